@@ -477,21 +477,30 @@ Ltac prune :=
   try (repeat split; auto; try lia; fail);
   try (intuition (try discriminate; try congruence; try lia); fail).
 
-Ltac split_var :=
+Ltac split_with tac :=
   match goal with
-  | H : context [match ?v with _ => _ end] |- _ => is_var v; destruct v; prune
-  | H : context [if ?v then _ else _] |- _ => is_var v; destruct v; prune
-  | H : context [negb ?v] |- _ => is_var v; destruct v; prune
-  | H : context [?v || _] |- _ => is_var v; destruct v; prune
-  | H : context [?v && _] |- _ => is_var v; destruct v; prune
-  | |- context [match ?v with _ => _ end] => is_var v; destruct v; prune
-  | |- context [if ?v then _ else _] => is_var v; destruct v; prune
-  | |- context [negb ?v] => is_var v; destruct v; prune
-  | |- context [b2n ?v] => is_var v; destruct v; prune
-  | |- context [?v || _] => is_var v; destruct v; prune
-  | |- context [?v && _] => is_var v; destruct v; prune
-  | H : context [b2n ?v] |- _ => is_var v; destruct v; prune
+  | H : context [match ?v with _ => _ end] |- _ => is_var v; destruct v; tac
+  | H : context [if ?v then _ else _] |- _ => is_var v; destruct v; tac
+  | H : context [negb ?v] |- _ => is_var v; destruct v; tac
+  | H : context [?v || _] |- _ => is_var v; destruct v; tac
+  | H : context [?v && _] |- _ => is_var v; destruct v; tac
+  | H : context [_ && ?v] |- _ => is_var v; destruct v; tac
+  | H : context [implb ?v _] |- _ => is_var v; destruct v; tac
+  | H : context [implb _ ?v] |- _ => is_var v; destruct v; tac
+  | |- context [match ?v with _ => _ end] => is_var v; destruct v; tac
+  | |- context [if ?v then _ else _] => is_var v; destruct v; tac
+  | |- context [negb ?v] => is_var v; destruct v; tac
+  | |- context [b2n ?v] => is_var v; destruct v; tac
+  | |- context [?v || _] => is_var v; destruct v; tac
+  | |- context [?v && _] => is_var v; destruct v; tac
+  | |- context [Bool.eqb ?v _] => is_var v; destruct v; tac
+  | |- context [implb ?v _] => is_var v; destruct v; tac
+  | |- context [implb _ ?v] => is_var v; destruct v; tac
+  | |- context [_ && ?v] => is_var v; destruct v; tac
+  | H : context [b2n ?v] |- _ => is_var v; destruct v; tac
   end.
+
+Ltac split_var := split_with prune.
 
 Ltac adaptive := prune; repeat split_var.
 
@@ -517,11 +526,83 @@ Proof.
     cbn [sstep rstep is_marker orb];
     inv_in H; subst s'; cbn [s_pc s_rmc s_cdone s_sdone s_rc s_hu s_stale s_phu s_add s_x s_rr set_pc] in *.
   all: subst; try (eexists; split; [reflexivity|]; adaptive; fail).
+  all: destruct Hn as [Hn|(Hr1 & Hn & Hb)]; subst.
   all: repeat first
          [ solve [eexists; split; [reflexivity|]; adaptive]
-         | match goal with
-           | |- context [match ?v with _ => _ end] => is_var v; destruct v
-           | |- context [if ?v then _ else _] => is_var v; destruct v
-           | |- context [Bool.eqb ?v _] => is_var v; destruct v
-           end; cbn in *; try discriminate ].
+         | split_with ltac:(cbn in *; try discriminate; try lia) ].
+Qed.
+
+Lemma orun_istep tr : forall a b x',
+  orun istep (a, b) tr = Some x' ->
+  orun sstep a tr = Some (fst x') /\ orun rstep b tr = Some (snd x').
+Proof.
+  induction tr as [|e tr IH]; intros a b x' H; cbn in *.
+  - inversion H; subst; auto.
+  - unfold istep in H at 1. cbn [fst snd] in H.
+    destruct (sstep a e) as [a'|]; [|discriminate]. destruct (rstep b e) as [b'|]; [|discriminate].
+    apply IH; auto.
+Qed.
+
+Lemma model_invariants c tr s :
+  run c init tr s ->
+  exists x, orun istep ((0, 0), (0, false)) tr = Some x /\ Rinv s x.
+Proof.
+  intros H.
+  eapply (simulation_st istep Rinv c (Rinv_tau c) (Rinv_vis c)); eauto.
+  cbn. repeat split; auto.
+Qed.
+
+Lemma model_silence c tr s : run c init tr s -> k_silence tr = true.
+Proof.
+  intros H. destruct (model_invariants _ _ _ H) as (x & Hx & _).
+  apply orun_istep in Hx. destruct Hx as [Hs _]. apply k_silence_orun. congruence.
+Qed.
+
+Lemma model_refusals c tr s : run c init tr s -> k_refuse tr = true.
+Proof.
+  intros H. destruct (model_invariants _ _ _ H) as (x & Hx & _).
+  apply orun_istep in Hx. destruct Hx as [_ Hr]. apply k_refuse_orun. congruence.
+Qed.
+
+Lemma reachable_wf c tr s : run c init tr s -> wfb s = true.
+Proof.
+  intros H. destruct (model_invariants _ _ _ H) as ([[n p] [m r]] & _ & W & _). exact W.
+Qed.
+
+(** declarative reading of K3: a goroutine letter needs a live Add *)
+Lemma k_silence_gen tr : forall n pend,
+  k_silence_n n pend tr = true ->
+  forall a e b, tr = a ++ e :: b -> is_gor e = true ->
+  n <> 0 \/ pend <> 0 \/ In EAddCalled a \/ In (XCalled KAdd) a.
+Proof.
+  induction tr as [|x tr IH]; intros n pend H a e b Heq Hg.
+  - destruct a; discriminate.
+  - destruct a as [|y a]; cbn in Heq; inversion Heq; subst; clear Heq.
+    + unfold is_gor in Hg. destruct (Nat.eqb n 0) eqn:En.
+      * destruct e; cbn in *; try discriminate; rewrite En in H; cbn in H; discriminate.
+      * left. apply Nat.eqb_neq in En. auto.
+    + assert (G : forall n' p', k_silence_n n' p' (a ++ e :: b) = true ->
+                  (n' <> 0 \/ p' <> 0 -> n <> 0 \/ pend <> 0) ->
+                  n <> 0 \/ pend <> 0 \/ In EAddCalled (y :: a) \/ In (XCalled KAdd) (y :: a)).
+      { intros n' p' H' Himp. destruct (IH _ _ H' _ _ _ eq_refl Hg) as [E|[E|[E|E]]].
+        - destruct Himp; auto.
+        - destruct Himp; auto.
+        - right; right; left; right; auto.
+        - right; right; right; right; auto. }
+      destruct y; cbn in H;
+        try (apply andb_true_iff in H; destruct H as [_ H]);
+        try (apply (G _ _ H); tauto).
+      * right; right; left; left; auto.
+      * destruct ok; apply (G _ _ H); lia.
+      * destruct ok; apply (G _ _ H); lia.
+      * destruct k; try (right; right; right; left; reflexivity);
+          try (apply andb_true_iff in H; destruct H as [_ H]); apply (G _ _ H); tauto.
+      * destruct k, ok; try (apply andb_true_iff in H; destruct H as [_ H]); apply (G _ _ H); lia.
+Qed.
+
+Lemma k_silence_sound tr :
+  k_silence tr = true ->
+  forall a e b, tr = a ++ e :: b -> is_gor e = true -> In EAddCalled a \/ In (XCalled KAdd) a.
+Proof.
+  intros H a e b Heq Hg. destruct (k_silence_gen _ _ _ H _ _ _ Heq Hg) as [E|[E|E]]; auto; congruence.
 Qed.
